@@ -98,6 +98,13 @@ DevOK(e) ==
     /\ e.same.count_eq = Len(e.a) /\ e.same.count_neq = 0                                                          \* identical arguments
     /\ e.same.sq = 0 /\ e.same.l1 = 0 /\ e.same.linf = 0 /\ e.same.l2sq = 0 /\ e.same.mae = 0 /\ e.same.mse = 0 /\ e.same.rmse2 = 0
 
+(* NaN (code 99) is equal to nothing, itself included - whatever the operands' memory relation *)
+NanC == 99
+CountEqNan(a, b) == Cardinality({x \in DOMAIN a : a[x] = b[x] /\ a[x] # NanC})
+DevNanOK(e) ==
+    /\ e.eq_ab = CountEqNan(e.a, e.b) /\ e.eq_ba = e.eq_ab /\ e.eq_ab + e.neq_ab = Len(e.a)
+    /\ e.eq_alias = CountEqNan(e.a, e.a) /\ e.eq_copy = e.eq_alias /\ e.eq_alias + e.neq_alias = Len(e.a)
+
 (* ---- C10 ---- *)
 NanCode == -1
 NegCode == -2
@@ -131,6 +138,7 @@ EventOK(e) ==
     CASE e.ev = "summ" -> (IF PROP = "C18" THEN SummPairOK(e) ELSE SummOK(e))
       [] e.ev = "corr" -> CorrOK(e)
       [] e.ev = "dev"  -> DevOK(e)
+      [] e.ev = "devnan" -> DevNanOK(e)
       [] e.ev = "ent"  -> EntOK(e)
       [] OTHER -> FALSE
 
